@@ -17,6 +17,9 @@ pub enum Family {
     Atomics,
     /// Mutex + Condvar
     Condvar,
+    /// structured condvar scenarios: waiters that count themselves under the mutex before waiting,
+    /// notifiers that read the count before notifying (so that "was waiting when notified" is observable)
+    CondvarEpoch,
     /// Barrier, Once, park/unpark, yield
     Sync2,
     /// park/unpark with observers (small, mostly passing trees with spuriously-wakeable tasks)
@@ -39,6 +42,7 @@ pub const ALL_FAMILIES: &[Family] = &[
     Family::Locks,
     Family::Atomics,
     Family::Condvar,
+    Family::CondvarEpoch,
     Family::Sync2,
     Family::Park,
     Family::Chan,
@@ -180,6 +184,8 @@ enum K {
     Skip,
     Assert,
     Reset,
+    WaitSeq,
+    CheckNotify,
 }
 
 fn menu(cfg: &GenCfg) -> Vec<K> {
@@ -190,6 +196,7 @@ fn menu(cfg: &GenCfg) -> Vec<K> {
         ],
         Family::Atomics => vec![ALoad, ALoad, AStore, AStore, ASwap, ACas, ACas, AFetchAdd, AFetchAdd],
         Family::Condvar => vec![Lock, Unlock, CvWait, CvWait, CvWaitWhile, CvWaitWhile, NotifyOne, NotifyOne, NotifyAll, MSet, MSet, MGet],
+        Family::CondvarEpoch => vec![WaitSeq, WaitSeq, WaitSeq, CheckNotify, CheckNotify, CheckNotify, NotifyOne, NotifyAll],
         Family::Sync2 => vec![BWait, BWait, BWait, CallOnce, CallOnce, OnceDone, OnceDone, Park, Park, Unpark, Unpark, Yield, ALoad, AStore],
         Family::Park => vec![Park, Park, Unpark, Unpark, Unpark, Yield, ALoad, AStore, AFetchAdd],
         Family::Chan => vec![Send, Send, Send, TrySend, TrySend, Recv, Recv, Recv, TryRecv, TryRecv, DropTx, DropRx, ALoad, AStore],
@@ -205,6 +212,9 @@ fn menu(cfg: &GenCfg) -> Vec<K> {
             TryRecv, DropTx, Yield, Park, Unpark, Acquire, TryAcquire, Release, Avail, AcqStart, AcqFinish, AcqDrop, EvWait, EvSet, EvSet, EvWake, Abort, DropHandle, IsFinished,
         ],
     };
+    if cfg.family == Family::CondvarEpoch {
+        return m;
+    }
     if cfg.control {
         m.push(Skip);
     }
@@ -402,7 +412,14 @@ pub fn build(raw: &RawProg, cfg: &GenCfg) -> (Prog, FixStats) {
                 }
                 K::NotifyOne => ops.push(Op::NotifyOne(idx(r.obj, NC))),
                 K::NotifyAll => ops.push(Op::NotifyAll(idx(r.obj, NC))),
-                K::BWait => ops.push(Op::BWait(idx(r.obj, barriers.len()))),
+                K::BWait => {
+                    // known finding c02.barrier-blocking-arrival-no-yield: a blocking arrival has no scheduling point
+                    if cfg.avoid_known {
+                        push_free_yield(&mut ops);
+                        stats.avoided_known += 1;
+                    }
+                    ops.push(Op::BWait(idx(r.obj, barriers.len())))
+                }
                 K::CallOnce => ops.push(Op::CallOnce(idx(r.obj, NO), r.val & 1 == 1 && !is_async)),
                 K::OnceDone => ops.push(Op::OnceDone(idx(r.obj, NO))),
                 K::Send | K::TrySend => {
@@ -515,6 +532,24 @@ pub fn build(raw: &RawProg, cfg: &GenCfg) -> (Prog, FixStats) {
                 }
                 K::Assert => ops.push(Op::AssertLast((r.extra % 4) as i64)),
                 K::Reset => ops.push(Op::ResetSteps),
+                K::WaitSeq => {
+                    if !held_m[0] {
+                        ops.push(Op::Lock(0));
+                    }
+                    ops.push(Op::MAdd(0, 1));
+                    ops.push(Op::CvWait(0, 0));
+                    ops.push(Op::Unlock(0));
+                    held_m[0] = false;
+                }
+                K::CheckNotify => {
+                    if !held_m[0] {
+                        ops.push(Op::Lock(0));
+                    }
+                    ops.push(Op::MGet(0));
+                    ops.push(Op::Unlock(0));
+                    held_m[0] = false;
+                    ops.push(if r.val % 4 == 0 { Op::NotifyAll(0) } else { Op::NotifyOne(0) });
+                }
             }
         }
         // release what is still held (guards are dropped at task end anyway; make it explicit so that
